@@ -100,6 +100,7 @@ def run(rep, tier):
         trace(rep, meta, sfx)
         trace_entry(rep, meta, sfx)
         minzero(rep, meta, sfx)
+        allrules(rep, meta, sfx)
         resolve(rep, meta, sfx)
         wiring(rep, meta, f, sfx)
 
@@ -755,3 +756,56 @@ def minzero(rep, meta, sfx):
                                     "applied to the lower bound of e{n,}): a well-formed grammar is refused")
     if n == 0:
         r.lost("construction site of ParserExpr::RepMin in the reader")
+
+
+# ------------------------------------------------------------------ ALLRULES
+
+def allrules(rep, meta, sfx):
+    r = rep.rule("C06.ALLRULES" + sfx, 2,
+                 "a validation pass that asks the nullability questions per rule looks at EVERY rule of the grammar: the "
+                 "iterator chain over the rule list it is given contains no selector that can stop early or drop rules "
+                 "(find, find_map, position, next, nth, take, take_while, skip, step_by, first, last) - both WHITESPACE and "
+                 "COMMENT sit in the implicit repetition, so checking only the first of them found accepts "
+                 "`COMMENT = _{ !\"x\" }` after a harmless WHITESPACE and parsing loops forever")
+    CUT = ("find", "find_map", "position", "next", "nth", "take", "take_while", "skip", "skip_while", "step_by", "first",
+           "last", "rfind", "rposition", "next_back", "nth_back", "map_while")
+    n = 0
+    for fn in meta.bodies:
+        if not fn["path"].startswith("pest_meta::validator::") or "::tests::" in fn["path"] or fn.get("exp") or fn.get("body") is None:
+            continue
+        if not any(kind(x) == "Call" and callee(x) in (NP, NF) for x in walk(fn["body"])):
+            continue
+        lists = set(p["id"] for p in fn["params"] if p.get("k") == "PBind" and ("[" in str(p.get("ty", "")) or "Vec<" in str(p.get("ty", "")))
+                    and "ParserRule" in str(p.get("ty", "")))
+        # locals that are just another name for the list (the parameter of a helper inlined into this function)
+        lets_a = hirq.lets(fn["body"])
+        grew = True
+        while grew:
+            grew = False
+            for lid, (init, st) in lets_a.items():
+                if lid not in lists and init is not None and hirq.local_id(init) in lists:
+                    lists.add(lid)
+                    grew = True
+        if not lists:
+            continue
+        n += 1
+        key = fn["path"].replace("pest_meta::validator::", "")
+        r.instance(key, where(fn["body"]))
+        for x in walk(fn["body"]):
+            if kind(x) == "MethodCall" and x["m"] in CUT:
+                root = x["recv"]
+                hops = 0
+                while kind(peel(root)) == "MethodCall" and hops < 12:
+                    root = peel(root)["recv"]
+                    hops += 1
+                if hirq.local_id(root) in lists:
+                    r.violation(key + ":" + x["m"], where(x),
+                                "%s selects from the rule list with `%s` before asking about the rules: rules after the first "
+                                "hit are never examined" % (fn["name"], x["m"]))
+        # the same for a loop over the list that is left early
+        for lp in [x for x in walk(fn["body"]) if kind(x) == "Loop" and x.get("src") == "ForLoop"]:
+            for y in walk(lp["body"]):
+                if kind(y) == "Break" and y.get("target") == lp.get("id") and not hirq.is_desugar(y):
+                    r.violation(key + ":break", where(y), "%s leaves its loop over the rules early" % fn["name"])
+    if n == 0:
+        r.lost("validation passes over the rule list that ask is_non_failing / is_non_progressing")
